@@ -224,12 +224,17 @@ static RouteResult run_route(char kind, bool mem, const std::vector<uint8_t>& fi
             if (have_live)
                 (void)sb_light_player_get_color_at(&live, 10);
             sb_light_program_clear(&prog);
+            std::string live_ans;
             if (have_live) {
-                for (unsigned long ts : { 0UL, 20UL, 1000UL, 60000UL, 5UL })
-                    (void)sb_light_player_get_color_at(&live, ts);
+                // ... and the two routes answer alike: clearing does not touch the bytes the player is reading
+                for (unsigned long ts : { 0UL, 20UL, 1000UL, 10000UL, 60000UL, 5UL }) {
+                    sb_rgb_color_t c = sb_light_player_get_color_at(&live, ts);
+                    live_ans += std::to_string(c.red) + "," + std::to_string(c.green) + "," + std::to_string(c.blue) + ","
+                        + std::to_string(sb_light_player_get_pyro_channels_at(&live, ts)) + ";";
+                }
                 sb_light_player_destroy(&live);
             }
-            r.cleared = battery_light(&prog, true);
+            r.cleared = battery_light(&prog, true) + "|live:" + live_ans;
             sb_light_program_destroy(&prog);
         }
     } else if (kind == 'y') {
